@@ -326,6 +326,62 @@ def task_as_reactions():
                 sample={"claim": "kb = kf/(K*c0^dnu), kf = kb*K*c0^dnu, forward/backward pair has mirrored stoichiometry"})
 
 
+REPLAY_INTK = '''
+from chempy import Equilibrium
+n, K = %(vals)r
+e = Equilibrium({"A": 1}, {"B": 2}, K)
+r = n * e
+exp = Fraction(K) ** n
+print(n, K, r.param, exp)
+ok = abs(Fraction(r.param) - exp) <= Fraction(1, 10**9) * abs(exp) and dict(r.reac) == ({"A": n} if n > 0 else {"B": -2 * n}) and dict(r.prod) == ({"B": 2 * n} if n > 0 else {"A": -n})
+sys.exit(0 if ok else 1)
+'''
+
+
+def task_int_constant():
+    """the constant may be a plain python int: (n*e).param == K**n for symbolic n (negative n reverses the reaction)"""
+    from chempy import Equilibrium
+    from fractions import Fraction
+    import chempy.chemistry as cc
+
+    cc.int = sym_int
+    n = Int("n")
+    assum = [n.t >= -3, n.t <= 3, n.t != 0]
+
+    def fn():
+        out = []
+        for K in (8, 3):
+            r = n * Equilibrium({"A": 1}, {"B": 2}, K)
+            nv = fork_int(n, -3, 3)
+            out.append((K, nv, r.param, dict(r.reac), dict(r.prod)))
+        return out
+
+    def goal(p, twin=False):
+        if p.kind == "exc":
+            return False
+        conds = []
+        for K, nv, param, reac, prod in p.value:
+            exp = Fraction(K) ** nv if not twin else Fraction(K) ** (-nv)
+            conds.append(eq_term(param, exp) if isinstance(param, SymNum) else z3.BoolVal(abs(Fraction(param) - exp) <= Fraction(1, 10 ** 9) * exp))
+            if nv > 0:
+                conds += [z3.BoolVal(set(reac) == {"A"} and set(prod) == {"B"}), eq_term(reac["A"], nv), eq_term(prod["B"], 2 * nv)]
+            else:
+                conds += [z3.BoolVal(set(reac) == {"B"} and set(prod) == {"A"}), eq_term(reac["B"], -2 * nv), eq_term(prod["A"], -nv)]
+        return z3.And(*conds)
+
+    o = explore_and_prove(fn, assum, goal, max_paths=200)
+    ot = explore_and_prove(fn, assum, lambda q: goal(q, True), max_paths=200, max_fail=1)
+    res = dict(engine="Z", functions=[env.describe(Equilibrium.__rmul__)], obligations=o.obligations, discharged=o.discharged, violations=[],
+               inconclusive=list(o.inconclusive), queries=o.queries, paths=o.paths, solver_s=o.solver_s, twin="violated" if ot.failed else "passed",
+               bounds="plain int constants 8 and 3, multiplier -3..3 symbolic", sample={"claim": "(n*e).param == K**n"})
+    for p, mdl, g in o.failed[:1]:
+        nv = model_value(mdl, n.t)
+        res["violations"].append(dict(key="int-constant:%s" % p.kind, soft=wrapper_exc(p.value), desc="n=%s -> %r" % (nv, p.value),
+                                      replay_src=REPLAY_INTK % dict(vals=(nv, 8))))
+    res["status"] = "violation" if res["violations"] else ("inconclusive" if res["inconclusive"] else "discharged")
+    return res
+
+
 def tasks(tier, seed):
     import random
 
@@ -347,4 +403,5 @@ def tasks(tier, seed):
     ts.append(dict(id="C11.neg", fn="task_arith", kwargs=dict(form="-e1", shape_sets=[[s] for s in names]), timeout=600))
     ts.append(dict(id="C11.eliminate_cancel", fn="task_eliminate", kwargs=dict(maxc=6 if tier == "quick" else 9), timeout=900))
     ts.append(dict(id="C11.as_reactions", fn="task_as_reactions", kwargs={}, timeout=120))
+    ts.append(dict(id="C11.int_constant", fn="task_int_constant", kwargs={}, timeout=300))
     return ts
